@@ -1972,7 +1972,7 @@ func (v *FV) locksetCheck(fr *Frame, st *State, owner ssa.Value, ot types.Type, 
 		if !prot {
 			continue
 		}
-		ownerT := v.val(fr, owner).T
+		ownerT := v.canonOwner(fr, owner)
 		mode, held := st.held[key+"@"+ownerT]
 		ok := held
 		if write && mode == "r" {
